@@ -298,3 +298,23 @@ MANIFEST_TEXT["C18"] = dict(
          "evaluated on real storages.",
     note=_CAP_NOTE + "Leaf predicates of the `predicates` crate (eq, lt/gt, str::starts_with) are assumed to satisfy find_case(e,x).is_some() <-> eval(x)=e; the harness checks this for every atom it uses.",
     technique="Lean 4 proof (structural induction over predicates) + differential correspondence on compiled predicate instances")
+
+MANIFEST_TEXT["C13"] = dict(
+    text="Known finding K4: the receiver never consults the host's enabled() — the first clause is false of the code (C13_counterexample, "
+         "kernel-checked; reported by the check as KNOWN-FINDING when a host-disabled span/event reaches the filtered host). Proved: "
+         "C13_faithful — for every well-formed program, every level filter and any arena history, erasing from the tunnelled log everything "
+         "about spans with a disabled call site and the disabled events, masking parent links and renumbering span ids by creation order "
+         "gives exactly the (normalised, widened) native log under that filter: everything the host enables is delivered with call site, "
+         "values and enter/exit/close history, in order; C13_never_rejects — a valid stream is never rejected whatever the filter. "
+         "Tied to the code by native vs tunnelled runs under identical level filters on two StrictHosts.",
+    note=_RECV_NOTE + "Filters are level thresholds in the theorem (any metadata predicate would do: the proof only uses that `enabled` is a function of the call site).",
+    technique="Lean 4 proof (lock-step simulation of filtered vs unfiltered native runs composed with C01) + differential correspondence")
+MANIFEST_TEXT["C16"] = dict(
+    text="Theorems (model of the repaired layer): for every program the API permits (well-formed as in C12, except that a follows-from may "
+         "target an already dropped, possibly closed span), every stack of capture layers with any filters and any global level filter, "
+         "no callback panics — so no storage lock is poisoned — (C16_no_panic, by a reference-accounting invariant of the registry), and "
+         "every layer's storage equals the storage it produces as the only capture layer (C16_independent, simulation with frame lemmas "
+         "for the other layers). Tied to the code by stacks of 1-3 real capture layers with independent filters, pass-through layers in "
+         "every position and stale follows-from targets; each real storage is also compared with the single-layer run of the real code.",
+    note=_CAP_NOTE + "Pass-through layers do not exist in the model (they cannot influence it); the harness runs them for real.",
+    technique="Lean 4 proof (registry accounting invariant; per-layer simulation) + differential correspondence + single-layer vs stack oracle")
